@@ -215,6 +215,7 @@ func runC02(c *Ctx) error {
 		p.close()
 		c.count(fmt.Sprintf("d17 level=%d", level), true, "kind=d17")
 	}
+	freshWindowScenario(c, 12)
 	return runC02Inbound(c)
 }
 
